@@ -17,10 +17,17 @@
     markup_parse_off_error_kind text_parse_flag_only_at_code text_parse_off_no_exec
     text_parse_off_rejects
     lru_history_disabled_no_exec lru_later_load_rejects_code lru_cache_stays_code_free
+    disabled_no_exec_object shapes_disabled_no_exec_object shapes_enabled_exec_exists
+    skeleton_sees_every_suite shapes_cover_nesting shapes_probed
+    plain_shapes_flag_independent pickle_preserves_flags
+    memo_history_disabled_no_exec memo_cache_stays_code_free memo_later_load_code_free
+    memo_later_load_rejects_code
 -/
 import Genshi.Lemmas.ExecLru
 import Genshi.Lemmas.ExecRaise
 import Genshi.Lemmas.ExecParse
+import Genshi.Lemmas.ExecShape
+import Genshi.Lemmas.ExecMemo
 namespace Genshi.Props.C14
 open Genshi.Exec Genshi.Gen.Exec
 
@@ -763,5 +770,233 @@ example : (runHistoryB 1 5 5 lruFs (st0 false false) [(0, .markup), (1, .markup)
 example : (runHistoryB 1 5 5 lruFs (st0 true false) [(0, .markup), (2, .markup)]).1.sentinel = [9] := by decide
 end Lru
 
-end Genshi.Props.C14
 
+/-! ### wave 4: template objects by SHAPE — every placement of a code block × every way a template
+    object comes into being (`Genshi/Gen/ExecShape.lean`, regenerated from the code on every run)
+
+  The recursive definition of "the parsed stream contains an EXEC event at any depth" is
+  `hasExecL` (`Genshi/Model/ExecShapeBase.lean`: through SUB bodies and include fallbacks). -/
+section Shapes
+open Genshi.Gen.ExecShape
+
+/-- **with the flag off no template object whose stream holds a code block exists along any reach
+    path**: for every configuration, every reach (root of any kind, any number of include steps
+    with any parse mode) under a disabled root, and every probed shape of the template reached
+    (code block at top level, in prolog / epilog, deep in elements, after long content, inside
+    every directive kind, nested to depth 4, inside `xi:fallback`): of all template objects that
+    exist afterwards (root, includer, anything in a loader cache) none has an EXEC event at any
+    depth, the block did not run, bringing the template into being raised a template syntax error,
+    and no compiled suite sits anywhere in the object graph.  A guard that depends on the shape
+    (a flat scan, a guard in one directive's parser, a guard that only looks at short streams)
+    breaks this at the row of that shape. -/
+theorem disabled_no_exec_object (cfg : Config) (r : Reach) (k : Nat) (row : ShapeRow)
+    (hd : r.rootOf.disabled cfg) (h : reachRow cfg r k = some row) :
+    (∀ s ∈ row.objects, hasExecL s = false) ∧ row.ran = false ∧ row.err = .syntax ∧
+      row.deepSuite = false := by
+  have := reachRow_disabled_offOk cfg r k row hd h
+  simp only [ShapeRow.offOk, ShapeRow.execFree, Bool.and_eq_true, List.all_eq_true, Bool.not_eq_true',
+    decide_eq_true_eq] at this
+  exact ⟨this.1.1.1, this.1.1.2, this.1.2, this.2⟩
+
+/-- the same for **every way probed** — also those that are not reach paths of the model:
+    `_instantiate` called directly, dynamic hrefs, includes of includes, includes reached through
+    a fallback, the implicit loader, and pickle round trips of the template, of an including
+    template before its first render, and of the loader -/
+theorem shapes_disabled_no_exec_object (row : ShapeRow) (hm : row ∈ shapeRows) (hf : row.flag = false) :
+    (∀ s ∈ row.objects, hasExecL s = false) ∧ row.ran = false ∧ row.err = .syntax ∧
+      row.deepSuite = false := by
+  have := List.all_eq_true.mp shapeRows_off_check row hm
+  simp only [hf, Bool.false_or, ShapeRow.offOk, ShapeRow.execFree, Bool.and_eq_true, List.all_eq_true,
+    Bool.not_eq_true', decide_eq_true_eq] at this
+  exact ⟨this.1.1.1, this.1.1.2, this.1.2, this.2⟩
+
+/-- the probes are meaningful: with the flag on, every shape in every way does run its block, the
+    template object exists and its stream holds the EXEC event (old-style text templates have no
+    code blocks: a syntax error under both flag values) -/
+theorem shapes_enabled_exec_exists (row : ShapeRow) (hm : row ∈ shapeRows) (hf : row.flag = true) :
+    (row.cls ≠ .oldtext → (∃ s ∈ row.objects, hasExecL s = true) ∧ row.ran = true ∧ row.err = .none) ∧
+    (row.cls = .oldtext → row.ran = false ∧ row.err = .syntax) := by
+  have := List.all_eq_true.mp shapeRows_on_check row hm
+  simp only [hf, Bool.not_true, Bool.false_or, ShapeRow.onOk] at this
+  constructor
+  · intro hc
+    rw [if_neg hc] at this
+    simp only [ShapeRow.execExists, Bool.and_eq_true, List.any_eq_true, decide_eq_true_eq] at this
+    exact ⟨this.1.1.1, this.1.1.2, this.1.2⟩
+  · intro hc
+    rw [if_pos hc] at this
+    simp only [Bool.and_eq_true, Bool.not_eq_true', decide_eq_true_eq] at this
+    exact ⟨this.1.1.2, this.1.2⟩
+
+/-- the recursive definition agrees with the real object graph: in every probe, some template
+    object's skeleton holds an EXEC event at some depth exactly when a generic walk of the object
+    graph (dicts, sequences, `__dict__`, `__slots__`) met a compiled `Suite` -/
+theorem skeleton_sees_every_suite (row : ShapeRow) (hm : row ∈ shapeRows) :
+    row.execExists = row.deepSuite := by
+  have := List.all_eq_true.mp shapeRows_suite_check row hm
+  simpa using this
+
+/-- does some probe of class `c` (flag on) satisfy `p` -/
+def someOn (c : Cls) (p : ShapeRow → Bool) : Bool :=
+  shapeRows.any fun r => decide (r.cls = c) && r.flag && p r
+
+/-- the shapes are not all flat: for markup and new-style text templates there are probed objects
+    whose code block a scan of the top level does not see (it sits in a SUB body), objects with a
+    block nested at depth ≥ 4, and — markup — objects whose block sits in an include fallback
+    that survives into the prepared stream -/
+theorem shapes_cover_nesting :
+    someOn .markup (fun r => r.objects.any fun s => hasExecL s && !flatExec s) = true ∧
+    someOn .newtext (fun r => r.objects.any fun s => hasExecL s && !flatExec s) = true ∧
+    someOn .markup (fun r => decide (4 ≤ r.depth)) = true ∧
+    someOn .newtext (fun r => decide (4 ≤ r.depth)) = true ∧
+    someOn .markup (fun r => r.objects.any fun s => s.any fun e =>
+      match e with | .incl fb => hasExecL fb | _ => false) = true := by
+  decide +kernel
+
+/-- the ways in which every shape is probed, per class -/
+def primaryWays : Cls → List Way
+  | .markup => [.ctor .str true, .load false, .incl .same false, .incl .same true, .incl .xml false,
+      .pluginString, .pickled]
+  | .newtext => [.ctor .str true, .load false, .incl .same false, .incl .same true, .incl .text true,
+      .pluginString, .pickled]
+  | .oldtext => [.ctor .str true, .load false, .incl .same false, .incl .same true, .pluginString, .pickled]
+
+/-- every way of the vocabulary that exists for the class -/
+def allWays : Cls → List Way
+  | .markup => [.ctor .str true, .ctor .str false, .ctor .bytes true, .ctor .bytes false, .ctor .file true,
+      .ctor .file false, .ctor .stream true, .ctor .stream false, .load false, .load true, .instantiate,
+      .incl .same false, .incl .same true, .incl .xml false, .incl .xml true, .inclDyn .same, .inclDyn .xml,
+      .inclDeep false, .inclDeep true, .inclFallback false, .inclFallback true, .inclOwn, .pluginFile,
+      .pluginString, .pickled, .pickledHost, .pickledLoader]
+  | .newtext => [.ctor .str true, .ctor .str false, .ctor .bytes true, .ctor .bytes false, .ctor .file true,
+      .ctor .file false, .load false, .load true, .instantiate,
+      .incl .same false, .incl .same true, .incl .text false, .incl .text true, .inclDyn .same, .inclDyn .text,
+      .inclDeep false, .inclDeep true, .inclOwn, .pluginFile, .pluginString, .pickled, .pickledHost,
+      .pickledLoader]
+  | .oldtext => [.ctor .str true, .ctor .str false, .ctor .bytes true, .ctor .bytes false, .ctor .file true,
+      .ctor .file false, .load false, .load true, .instantiate, .incl .same false, .incl .same true,
+      .inclDeep false, .inclDeep true, .inclOwn, .pluginFile, .pluginString, .pickled, .pickledHost,
+      .pickledLoader]
+
+/-- the shapes probed for class `c` in way `w` under flag `b`, in table order -/
+def shapesOf (c : Cls) (w : Way) (b : Bool) : List Nat :=
+  (shapeRows.filter fun r => decide (r.cls = c) && (r.way.code == w.code) && (r.flag == b)).map (·.shape)
+
+/-- coverage of the probe set (so that the statements above are not vacuous): every shape of every
+    class is probed exactly once, under both flag values, in each primary way; in **every** way at
+    least five shapes (three for old-style text) are, the same under both flag values — among
+    them, for markup and new-style text, one with the block nested at depth ≥ 3 -/
+theorem shapes_probed (c : Cls) :
+    ((primaryWays c).all fun w => shapesOf c w false == List.range (shapeCount c) &&
+      shapesOf c w true == List.range (shapeCount c)) = true ∧
+    ((allWays c).all fun w =>
+      decide ((if c = .oldtext then 3 else 5) ≤ (shapesOf c w false).length) &&
+      (shapesOf c w false == shapesOf c w true) &&
+      (decide (c = .oldtext) || someOn c fun r => (r.way.code == w.code) && decide (3 ≤ r.depth))) = true ∧
+    (if c = .oldtext then 3 else 18) ≤ shapeCount c := by
+  cases c
+  · decide +kernel
+  · decide +kernel
+  · decide +kernel
+
+/-- **templates without code blocks render identically whether execution is allowed or not**, for
+    every shape (the block replaced by a plain expression: all directive kinds, nesting,
+    fallbacks) of markup, new-style and old-style text templates, constructed directly, loaded,
+    included (inline and run-time mode, `parse="text"` / `"xml"`, dynamic href), through plugins,
+    and after pickling: the output is the same, there is no error, and no compiled suite exists
+    under either flag value -/
+theorem plain_shapes_flag_independent (row : PlainRow) (hm : row ∈ plainRows) :
+    row.outOff = row.outOn ∧ row.outOff.isSome = true ∧ row.suiteOff = false ∧ row.suiteOn = false := by
+  have key : plainRows.all (fun r => decide (r.outOff = r.outOn) && r.outOff.isSome && !r.suiteOff && !r.suiteOn) = true := by
+    decide +kernel
+  have := List.all_eq_true.mp key row hm
+  simp only [Bool.and_eq_true, decide_eq_true_eq, Bool.not_eq_true'] at this
+  exact ⟨this.1.1.1, this.1.1.2, this.1.2, this.2⟩
+
+/-- **pickling keeps the flags**: a template that went through `pickle` has the flag it was
+    constructed with and holds a loader with the flag its loader had (so that what it includes
+    later is still governed by it); a pickled `TemplateLoader` keeps its flag -/
+theorem pickle_preserves_flags (c : Cls) (q : Req) (ld : Option Req) :
+    pickleFlags c q ld = (directFlag c .str q ld, directLoaderFlag c .str q ld) ∧
+    pickleLoaderFlag q = loaderFlag .markup false q ∧ pickleLoaderFlag q = some (want q) := by
+  rcases ld with _ | l
+  · cases c <;> cases q <;> exact ⟨rfl, rfl, rfl⟩
+  · cases c <;> cases q <;> cases l <;> exact ⟨rfl, rfl, rfl⟩
+
+/-! non-vacuity -/
+
+/-- a disabled root three includes deep (`parse="text"` at the end) with the block four directives
+    deep: the probe exists, and it is a rejection -/
+example : (reachRow ⟨.dflt, .off, .absent, true⟩ (.incl (.incl (.root (.load .markup false)) .same) .text) 15).map
+    (fun r => (r.cls, r.err, r.ran)) = some (.newtext, .syntax, false) := by decide +kernel
+example : (Reach.incl (.incl (.root (.load .markup false)) .same) .text).rootOf.disabled ⟨.dflt, .off, .absent, true⟩ := rfl
+/-- with the loader's flag on the same reach gives an object with an EXEC event -/
+example : (reachRow ⟨.dflt, .on, .absent, true⟩ (.incl (.incl (.root (.load .markup false)) .same) .text) 15).map
+    (fun r => (r.execExists, r.ran)) = some (true, true) := by decide +kernel
+example : hasExecL [.ev, .sub [.ev, .incl [.sub [.exec]]]] = true ∧ flatExec [.ev, .sub [.ev, .incl [.sub [.exec]]]] = false ∧
+    execDepthL [.ev, .sub [.ev, .incl [.sub [.exec]]]] = 4 := by decide
+example : ∃ r ∈ shapeRows, r.flag = false ∧ r.way = .pickledHost := by decide +kernel
+example : ∃ r ∈ plainRows, r.way = .incl .text true ∧ r.outOff.isSome := by decide +kernel
+
+end Shapes
+
+
+/-! ### wave 4: the bounded loader cache with `_prepared` memoisation as state
+    (`Genshi/Model/ExecMemo.lean`: template objects have an identity and keep their prepared stream;
+    tied to the real loader by the stream `memo-history`, cache CONTENTS included) -/
+section Memo
+
+/-- through a loader whose flag is off, any history of load-and-render calls (any names, any class
+    asked for, any `max_cache_size` incl. 0 and 1, any graph, both include modes, any fuel) never
+    moves the sentinel — also when templates are prepared once and kept, prepared as part of another
+    template, evicted while being prepared, or parsed again under the same key -/
+theorem memo_history_disabled_no_exec (cap fuel pf : Nat) (fs : FS) (ar : Bool) (hist : List (Nat × Cls)) :
+    (runHistoryM cap fuel pf fs (mst0 false ar) hist).sentinel = [] :=
+  (runHistoryM_clean cap fuel pf fs hist _ (mst0_clean fs ar)).2
+
+/-- at the end of every such history every cached template object is free of code blocks — its
+    parsed items and, when it is prepared, its memoised prepared stream (which holds the spliced
+    streams of everything it inlined) — and is the parse of the file of its name -/
+theorem memo_cache_stays_code_free (cap fuel pf : Nat) (fs : FS) (ar : Bool) (hist : List (Nat × Cls)) :
+    ∀ e ∈ (runHistoryM cap fuel pf fs (mst0 false ar) hist).cache,
+      (noCode e.2.t.items = true ∧ ∀ ps, e.2.prep = some ps → pNoCode ps = true) ∧
+      ∃ f, fs.lookup e.1.1 = some f ∧ e.2.t.items = f.items :=
+  (runHistoryM_clean cap fuel pf fs hist _ (mst0_clean fs ar)).1.2
+
+/-- after every such history, whatever a later load returns — a cached, possibly prepared object or
+    a fresh parse — is free of code blocks, and the load does not move the sentinel -/
+theorem memo_later_load_code_free (cap fuel pf : Nat) (fs : FS) (ar : Bool) (hist : List (Nat × Cls))
+    (name : Nat) (c : Cls) (abs : Bool) (st' : MSt) (o : MT)
+    (h : loadM cap fs (runHistoryM cap fuel pf fs (mst0 false ar) hist) name c abs = .ok (st', o)) :
+    noCode o.t.items = true ∧ (∀ ps, o.prep = some ps → pNoCode ps = true) ∧ st'.sentinel = [] := by
+  obtain ⟨hc, hs⟩ := runHistoryM_clean cap fuel pf fs hist _ (mst0_clean fs ar)
+  obtain ⟨_, ho, hs'⟩ := loadM_clean cap fs _ st' name c abs o hc h
+  exact ⟨ho.1, ho.2, hs'.trans hs⟩
+
+/-- **a later load rejects code**: after every such history, loading a file that contains a code
+    block — never loaded, or loaded, evicted and asked for again, under any bound — fails (never a
+    cached or prepared object); asked for in the language it is written in, with the
+    `TemplateSyntaxError` of that file -/
+theorem memo_later_load_rejects_code (cap fuel pf : Nat) (fs : FS) (ar : Bool) (hist : List (Nat × Cls))
+    (name : Nat) (c : Cls) (abs : Bool) (f : File) (hf : fs.lookup name = some f) (hcode : noCode f.items = false) :
+    ∃ e, loadM cap fs (runHistoryM cap fuel pf fs (mst0 false ar) hist) name c abs = .error e ∧
+      (f.syn = c → e = .syntax name) :=
+  loadM_code_fails cap fs _ name c abs f (runHistoryM_clean cap fuel pf fs hist _ (mst0_clean fs ar)).1 hf hcode
+
+-- non-vacuity: memoisation is state.  0 inlines 1 (bound 2): after rendering 0 twice the cache is
+-- [0, 1] with 0 prepared; the second render performed no load (1 was not touched again: with 1
+-- loaded in between it would sit in front otherwise) — and with the flag on a block runs.
+def memoFs : FS := [(0, ⟨.markup, [.text 1, .incl 1 .same false]⟩), (1, ⟨.markup, [.text 2]⟩),
+                    (2, ⟨.markup, [.code 9 1]⟩)]
+example : (runHistoryM 2 5 5 memoFs (mst0 false false) [(0, .markup), (1, .markup), (0, .markup)]).cache.map
+    (fun e => (e.1.1, e.2.prep.isSome)) = [(0, true), (1, true)] := by decide
+example : (runHistoryM 2 5 5 memoFs (mst0 false true) [(0, .markup), (1, .markup), (0, .markup)]).cache.map
+    (fun e => (e.1.1, e.2.prep.isSome)) = [(1, true), (0, true)] := by decide
+example : (runHistoryM 1 5 5 memoFs (mst0 true false) [(0, .markup), (2, .markup), (2, .markup)]).sentinel = [9, 9] := by
+  decide
+example : (runHistoryM 1 5 5 memoFs (mst0 false false) [(0, .markup), (2, .markup), (2, .markup)]).sentinel = [] := by
+  decide
+
+end Memo
+
+end Genshi.Props.C14
